@@ -60,6 +60,9 @@ func (t *tracer) engineCase(g *gen, round int) {
 	byName := map[string]*engItem{}
 
 	// the engine and its face
+	var sentMu sync.Mutex
+	var sentBytes []byte // everything the engine's stream face wrote, in order
+	var streamFace *face.StreamFace
 	var eng *basic.Engine
 	var feed func([]byte) error
 	var cleanup func()
@@ -110,15 +113,24 @@ func (t *tracer) engineCase(g *gen, round int) {
 			t.line("SAME engine-stream-connects failed ok")
 			return
 		}
-		go func() { // drain what the engine sends (the expressed Interests)
-			buf := make([]byte, 4096)
+		go func() { // collect what the engine's face sends (the expressed Interests, then the concurrent senders' packets)
+			buf := make([]byte, 65536)
 			for {
-				if _, err := conn.Read(buf); err != nil {
+				n, err := conn.Read(buf)
+				sentMu.Lock()
+				sentBytes = append(sentBytes, buf[:n]...)
+				sentMu.Unlock()
+				if err != nil {
 					return
 				}
 			}
 		}()
-		feed = func(b []byte) error { _, err := conn.Write(b); return err }
+		feed = func(b []byte) error {
+			_ = conn.SetWriteDeadline(time.Now().Add(3 * time.Second)) // a peer that stopped reading is a failure, not a hang
+			_, err := conn.Write(b)
+			return err
+		}
+		streamFace = sf
 		cleanup = func() { _ = eng.Stop(); conn.Close(); ln.Close(); os.RemoveAll(dir) }
 	}
 	defer cleanup()
@@ -257,4 +269,126 @@ func (t *tracer) engineCase(g *gen, round int) {
 		}
 	}
 	t.stats["engine-"+faceKind]++
+	if streamFace != nil {
+		t.concurrentSend(g, streamFace, func() []byte {
+			sentMu.Lock()
+			defer sentMu.Unlock()
+			return append([]byte{}, sentBytes...)
+		})
+	}
+}
+
+// Several goroutines send signed Data (multi-buffer wires) through ONE StreamFace at the same time; the peer frames the
+// byte stream into TLV blocks.  Every packet sent must arrive as one intact block that decodes and validates, and nothing
+// else of type Data may arrive.  A deadline bounds the wait; what is missing when it expires is reported by packet.
+func (t *tracer) concurrentSend(g *gen, sf *face.StreamFace, received func() []byte) {
+	sp := spec.Spec{}
+	kn := enc.Name{enc.NewStringComponent(8, "k")}
+	const senders, each = 3, 12
+	type sent struct {
+		wire  enc.Wire
+		bytes []byte
+		sk    *signerKind
+	}
+	var all [senders][]sent
+	total := 0
+	for sIdx := 0; sIdx < senders; sIdx++ {
+		for k := 0; k < each; k++ {
+			key := g.hmacKey()
+			var sk *signerKind
+			switch (sIdx + k) % 3 {
+			case 0:
+				sk = &signerKind{kind: "sha256", signer: sec.NewSha256Signer()}
+			case 1:
+				sk = &signerKind{kind: "hmac", signer: sec.NewHmacSigner(kn, key, false, time.Hour), key: key}
+			default:
+				ek := ecKeys[0]
+				sk = &signerKind{kind: "ecc", signer: sec.NewEccSigner(false, false, time.Hour, ek, kn), ecPub: &ek.PublicKey}
+			}
+			nm := enc.Name{enc.NewStringComponent(8, "eng"), enc.NewStringComponent(8, "send"), enc.Component{Typ: 8, Val: []byte{byte('a' + sIdx), byte('a' + k)}}}
+			res, err := sp.MakeData(nm, &ndn.DataConfig{}, enc.Wire{g.rbytes(1 + g.r.Intn(30)), g.rbytes(1 + g.r.Intn(30))}, sk.signer)
+			if err != nil {
+				t.line("SAME engine-stream-concurrent-send-builds failed ok")
+				return
+			}
+			all[sIdx] = append(all[sIdx], sent{res.Wire, join(res.Wire), sk})
+			total += len(join(res.Wire))
+		}
+	}
+	before := len(received())
+	var wg sync.WaitGroup
+	start := make(chan struct{})
+	errs := make(chan error, senders*each)
+	for sIdx := 0; sIdx < senders; sIdx++ {
+		wg.Add(1)
+		go func(list []sent) {
+			defer wg.Done()
+			<-start
+			for _, p := range list {
+				if err := sf.Send(p.wire); err != nil {
+					errs <- err
+				}
+			}
+		}(all[sIdx])
+	}
+	close(start)
+	wg.Wait()
+	close(errs)
+	for range errs {
+		t.line("SAME engine-stream-concurrent-send-accepted refused accepted")
+		return
+	}
+	deadline := time.Now().Add(3 * time.Second)
+	for len(received())-before < total && time.Now().Before(deadline) {
+		time.Sleep(2 * time.Millisecond)
+	}
+	// frame what arrived after `before`
+	stream := received()[before:]
+	blocks := map[string]int{}
+	var order [][]byte
+	for off := 0; off < len(stream); {
+		_, n1, ok1 := readVar(stream[off:])
+		if !ok1 {
+			break
+		}
+		l, n2, ok2 := readVar(stream[off+n1:])
+		if !ok2 || off+n1+n2+int(l) > len(stream) || l > 1<<20 {
+			break
+		}
+		blk := stream[off : off+n1+n2+int(l)]
+		blocks[string(blk)]++
+		order = append(order, blk)
+		off += n1 + n2 + int(l)
+	}
+	for sIdx := range all {
+		for k, p := range all[sIdx] {
+			got := "missing-or-damaged"
+			if blocks[string(p.bytes)] > 0 {
+				blocks[string(p.bytes)]--
+				got = "intact"
+			}
+			t.line("SAME engine-stream-concurrent-send-sender-%d-packet-%d-%s-arrives %s intact", sIdx, k, p.sk.kind, got)
+			if got != "intact" {
+				continue
+			}
+			obs, sig, cov, _ := decode("data", enc.NewBufferReader(append([]byte{}, p.bytes...)))
+			if obs == "err" || obs == "panic" || sig == nil {
+				continue
+			}
+			if ok, have := p.sk.validate(cov, sig); have {
+				v := "0"
+				if ok {
+					v = "1"
+				}
+				t.line("VALID %s %s %s %d %s %s", p.sk.kind, hx(p.sk.key), hx(join(cov)), int(sig.SigType()), hx(sig.SigValue()), v)
+			}
+		}
+	}
+	extra := 0
+	for _, n := range blocks {
+		extra += n
+	}
+	t.line("SAME engine-stream-concurrent-send-blocks-never-sent %d 0", extra)
+	t.line("SAME engine-stream-concurrent-send-octets-received %d %d", len(stream), total)
+	t.stats["engine-concurrent-send"]++
 }
